@@ -364,6 +364,7 @@ PROPS["C17"] = dict(
          "observed blocked inside Stop while a resource's Close was held at its gate; distinct by rendered scenario.",
     runs=[
         dict(test="TestC17Lifecycle", race={"thorough": True}, quick=dict(checks=16000, shards=16, timeout=300), thorough=dict(checks=320000, shards=16, timeout=3000)),
+        dict(test="TestC17NestedGroup", race=dict(quick=True, thorough=True), quick=dict(checks=3200, shards=8, timeout=300), thorough=dict(checks=160000, shards=16, timeout=3000)),
     ],
 )
 
